@@ -76,8 +76,11 @@ type raceRound struct {
 	eventDriven bool
 	precision   time.Duration
 	streams     [][]rcOp
-	flapping    bool // every stream is a target whose connection breaks after a few messages, again and again
-	minRefresh  int
+	// fastClock: cache.Now and latency.Now are a counter that advances 53ms per reading, so that the
+	// 2s/4s latency windows become covered and slide within a round (with the real clock they never do)
+	fastClock  bool
+	flapping   bool // every stream is a target whose connection breaks after a few messages, again and again
+	minRefresh int
 }
 
 // The path universe is a schema: <top>/x and <top>/y are leaves, <top>/z is a
@@ -234,7 +237,9 @@ func genRaceRound(seed int64, rounds, round int, rawOrigin bool) *raceRound {
 	for i := 0; i < rr.sc.Targets; i++ {
 		rr.streams = append(rr.streams, rcGenStream(r, rr.flapping))
 	}
-	rr.sc.Options = fmt.Sprintf("latency_windows=%v avg_precision=%v future_threshold=%v event_driven=%v flapping=%v", rr.latWindows, rr.precision, rr.threshold, rr.eventDriven, rr.flapping)
+	// (drawn last so that the workloads of earlier versions keep their derivation)
+	rr.fastClock = rr.latWindows && r.Intn(2) == 0
+	rr.sc.Options = fmt.Sprintf("latency_windows=%v avg_precision=%v future_threshold=%v event_driven=%v flapping=%v fast_clock=%v", rr.latWindows, rr.precision, rr.threshold, rr.eventDriven, rr.flapping, rr.fastClock)
 	return rr
 }
 
@@ -283,6 +288,7 @@ type raceRoundStats struct {
 	firstRefreshOverlapped bool // the first UpdateMetadata returned while update streams were still running
 	refreshAfterReset      bool // an UpdateMetadata ran between a Reset and the end of that stream
 	sizeOverlapped         bool
+	latencyChecked         bool // exported latency statistics were compared with the bounds
 	metaCalls, sizeCalls   int64
 	resets, syncs          int64
 	connErrThenConnect     bool
@@ -309,6 +315,7 @@ func (s *raceRoundStats) labels(rr *raceRound) []string {
 	add(s.firstRefreshOverlapped, "first-refresh-overlapped-stream")
 	add(s.refreshAfterReset, "refresh-between-reset-and-stream-end")
 	add(s.sizeOverlapped, "size-refresh-overlapped-stream")
+	add(s.latencyChecked, "latency-stats-bounds-checked")
 	add(s.resets > 0, "reset")
 	add(s.updatesAfterReset, "updates-after-reset")
 	add(s.syncs > 0, "sync")
@@ -320,6 +327,7 @@ func (s *raceRoundStats) labels(rr *raceRound) []string {
 	add(len(s.endSynced) > 0, "stream-ended-synced")
 	add(len(s.syncLost) > 0, "OBSERVATION(not-C15):sync-false-at-quiescence-after-Sync")
 	add(rr.latWindows, "opt-latency-windows")
+	add(rr.fastClock, "opt-fast-clock(latency-windows-slide)")
 	add(rr.threshold > 0, "opt-future-threshold")
 	add(!rr.eventDriven, "opt-event-driven-off")
 	add(rr.sc.RawOrigin, "raw-origin")
@@ -339,7 +347,13 @@ func (rr *raceRound) run() (st *raceRoundStats, err error) {
 		}
 	}()
 	savedCacheNow, savedLatNow := cache.Now, latency.Now
-	cache.Now, latency.Now = time.Now, time.Now
+	now := time.Now
+	var ticks atomic.Int64
+	clockBase := time.Unix(1_700_000_000, 0)
+	if rr.fastClock {
+		now = func() time.Time { return clockBase.Add(time.Duration(ticks.Add(1)) * 53 * time.Millisecond) }
+	}
+	cache.Now, latency.Now = now, now
 	defer func() { cache.Now, latency.Now = savedCacheNow, savedLatNow }()
 
 	var opts []cache.Option
@@ -385,7 +399,7 @@ func (rr *raceRound) run() (st *raceRoundStats, err error) {
 			var accepted, stale, future, other, resets, syncs, connErrs int64
 			sawConnErr, pair, didReset, updAfterReset, endsSynced := false, false, false, false, false
 			<-start
-			last := time.Now().UnixNano()
+			last := now().UnixNano()
 			for _, op := range ops {
 				switch op.kind {
 				case "connect":
@@ -413,7 +427,7 @@ func (rr *raceRound) run() (st *raceRoundStats, err error) {
 						defer afterReset.Add(-1)
 					}
 				case "noti":
-					ts := time.Now().UnixNano()
+					ts := now().UnixNano()
 					switch op.n.tsMode {
 					case 1:
 						ts = last
@@ -529,6 +543,27 @@ func (rr *raceRound) run() (st *raceRoundStats, err error) {
 		md := mds[name]
 		if md == nil {
 			return st, fmt.Errorf("target %s has no metadata", name)
+		}
+		if rr.fastClock {
+			// latency statistics, when exported, are ordered and cannot exceed the time the clock has covered
+			elapsed := int64(time.Duration(ticks.Load()+1) * 53 * time.Millisecond)
+			for _, win := range []time.Duration{2 * time.Second, 4 * time.Second} {
+				mn, e1 := md.GetInt(latency.MetadataName(win, latency.Min))
+				av, e2 := md.GetInt(latency.MetadataName(win, latency.Avg))
+				mx, e3 := md.GetInt(latency.MetadataName(win, latency.Max))
+				if e1 != nil || e2 != nil || e3 != nil {
+					continue
+				}
+				if mn == 0 && av == 0 && mx == 0 {
+					continue
+				}
+				st.latencyChecked = true
+				// (timestamps up to one hour ahead of the clock are part of the workload: latencies down to -1h)
+				if mn > av || av > mx || mn < -int64(time.Hour)-elapsed || mx > elapsed {
+					return st, fmt.Errorf("at the quiescent end %s exports latency statistics for the %v window min=%v avg=%v max=%v; they must be ordered, no latency can exceed the %v the clock covered in this round and none can be below -1h",
+						name, win, time.Duration(mn), time.Duration(av), time.Duration(mx), time.Duration(elapsed))
+				}
+			}
 		}
 		lc, _ := md.GetInt(metadata.LeafCount)
 		ac, _ := md.GetInt(metadata.AddCount)
